@@ -19,7 +19,12 @@ def run_jobs(run, jobs, key_of=None, rung=None, workers=16):
                 rep, detail = runner.replay_call(j['path'], call, j.get('params'))
                 rec = {'obligation': r['name'], 'harness': j['path'], 'call': call, 'params': j.get('params'), 'replay': detail,
                        'crosshair_message': r.get('message')}
-                if rep:
+                if rep and stub_gap(detail):
+                    # the code under test used a part of a library API that the harness's stand-in objects do not offer:
+                    # that is a limitation of the harness, not evidence against the code -> not decided
+                    r['status'] = INCONCLUSIVE
+                    r['error'] = f'harness stub incomplete (not a verdict on the code): {detail.get("exception") or detail.get("explain")}'
+                elif rep:
                     key = key_of(j, r, detail) if key_of else f'{os.path.basename(j["path"])}/{j["fname"]}'
                     run.report_violation(key, f'{r["name"]}: {call} -> {detail.get("explain") or detail.get("exception") or detail.get("returned")}', rec)
                 else:
@@ -31,6 +36,28 @@ def run_jobs(run, jobs, key_of=None, rung=None, workers=16):
         if r.get('sample') and len(run.samples) < 12:
             run.samples.append({'obligation': r['name'], 'case': r['sample']})
     return results
+
+
+_STUB_MARKERS = ("'NpStub'", "'Arr'", "'FakeFuture'", "'FakeExecutor'", "'FakeSigs'", "'FakeSig'", "'FakeDB'", "'FakeCtxObj'", "'CStub'", "'Exporter'",
+                 "'types.SimpleNamespace'", "SimpleNamespace' object has no attribute", "'list' object has no attribute", "'tuple' object has no attribute",
+                 "'int' object has no attribute")
+
+
+def stub_gap(detail):
+    """Did the replay fail only because a stand-in object of the harness lacks an attribute / method the code called?"""
+    texts = [str(detail.get('exception') or '')]
+    ex = detail.get('explain')
+    if isinstance(ex, dict):
+        texts.append(str(ex.get('why') or ''))
+        obs = ex.get('observed')
+        if isinstance(obs, dict):
+            texts.append(str(obs.get('msg') or ''))
+    elif ex:
+        texts.append(str(ex))
+    for t in texts:
+        if 'AttributeError' in t and any(m in t for m in _STUB_MARKERS):
+            return True
+    return False
 
 
 def note_sources(run, relpaths):
